@@ -68,7 +68,65 @@ WITNESS = {
 }
 
 
-def search(unit, repo, seed=0, timeout=900):
+MEMORY_LIMIT_GB = 12
+
+
+def _tree_rss_kb(root):
+  """resident memory of a process and all its descendants (kB)"""
+  children = {}
+  rss = {}
+  for pid in os.listdir('/proc'):
+    if not pid.isdigit():
+      continue
+    try:
+      with open('/proc/%s/stat' % pid) as f:
+        fields = f.read().rsplit(')', 1)[1].split()
+      children.setdefault(int(fields[1]), []).append(int(pid))
+      with open('/proc/%s/statm' % pid) as f:
+        rss[int(pid)] = int(f.read().split()[1]) * 4
+    except (OSError, IndexError, ValueError):
+      pass
+  total, todo = 0, [root]
+  while todo:
+    q = todo.pop()
+    total += rss.get(q, 0)
+    todo.extend(children.get(q, []))
+  return total
+
+
+def _run_watched(cmd, cwd, env, timeout):
+  """runs cmd in its own process group; returns (output, finished, runaway).  The group is killed at the time limit and
+  when its resident memory passes MEMORY_LIMIT_GB."""
+  import signal
+  import tempfile as _tf
+  with _tf.TemporaryFile(mode='w+b') as log:
+    p = subprocess.Popen(cmd, cwd=cwd, env=env, stdout=log, stderr=subprocess.STDOUT, start_new_session=True)
+    t0 = time.time()
+    finished, runaway = False, False
+    while True:
+      try:
+        p.wait(timeout=1.0)
+        finished = True
+        break
+      except subprocess.TimeoutExpired:
+        pass
+      if time.time() - t0 > timeout:
+        break
+      if _tree_rss_kb(p.pid) > MEMORY_LIMIT_GB * 1024 * 1024:
+        runaway = True
+        break
+    if not finished:
+      try:
+        os.killpg(p.pid, signal.SIGKILL)
+      except OSError:
+        pass
+      p.wait()
+    log.seek(0)
+    out = log.read().decode('utf-8', 'replace')
+  return out, finished, runaway
+
+
+def search(unit, repo, seed=0, timeout=1800):
   """returns dict(found: bool|None, witness: str, cmd: str, log_tail: str)"""
   if unit not in WITNESS:
     return {'found': None, 'witness': '', 'cmd': '', 'log_tail': 'no witness search for unit %s' % unit}
@@ -87,12 +145,15 @@ def search(unit, repo, seed=0, timeout=900):
     env = dict(os.environ, CARGO_NET_OFFLINE='true', CARGO_TARGET_DIR=CACHE, VERIF_SEED=str(seed))
     t0 = time.time()
     cachestamp.stamp(d, CACHE)
-    try:
-      p = subprocess.run(cmd, cwd=d, env=env, stdout=subprocess.PIPE, stderr=subprocess.STDOUT, text=True, timeout=timeout)
-      out = p.stdout
+    out, finished, runaway = _run_watched(cmd, d, env, timeout)
+    if finished:
       cachestamp.finished(CACHE)
-    except subprocess.TimeoutExpired as e:
-      out = (e.stdout or '') if isinstance(e.stdout, str) else (e.stdout or b'').decode('utf-8', 'replace')
+    elif runaway:
+      # code that loops and allocates without bound (seen with a parser change: 200 MB/s) would take the machine down
+      # long before the time limit: the run is stopped and that is the failing behaviour
+      out += '\nWITNESS: the real code allocated more than %d GB during this exploration and was stopped (a run-away loop); last output: %s\n' % (
+        MEMORY_LIMIT_GB, ' '.join(out[-300:].split()))
+    else:
       out += '\n[timeout]\n'
     m = re.search(r'WITNESS: (.*)$', out, re.M)
     res = {'cmd': ' '.join(cmd) + '   (in a scratch copy of /repo with `#[cfg(test)] #[path = "%s"] mod verif_witness;` appended to %s)' % (os.path.join(VERIF, src), rel),
